@@ -13,7 +13,7 @@ use crate::{u8sum, Aml, AmlSink, Checksum, TableHeader};
 pub struct VIOT {
     header: TableHeader,
     checksum: Checksum,
-    handle_offset: u16,
+    handle_offset: usize,
     nodes: Vec<Box<dyn Aml>>,
 }
 
@@ -41,7 +41,7 @@ impl VIOT {
         Self {
             header,
             checksum: cksum,
-            handle_offset: Self::header_len() as u16,
+            handle_offset: Self::header_len(),
             nodes: Vec::new(),
         }
     }
@@ -61,6 +61,9 @@ impl VIOT {
         self.checksum.append(new_len.as_bytes());
         self.checksum.add(sum);
 
+        // the node count is a 16-bit field
+        assert!(self.nodes.len() < u16::MAX as usize);
+
         // The header also contains a count of the number of nodes, so the
         // old count is replaced by the new one in the sum.
         let old_count = self.nodes.len() as u16;
@@ -73,30 +76,32 @@ impl VIOT {
 
     pub fn add_pci_range(&mut self, range: PciRange) {
         self.update_header(range.u8sum(), PciRange::len() as u32);
-        self.handle_offset += PciRange::len() as u16;
+        self.handle_offset += PciRange::len();
         self.nodes.push(Box::new(range));
     }
 
     pub fn add_mmio_endpoint(&mut self, ep: MmioEndpoint) {
         self.update_header(ep.u8sum(), MmioEndpoint::len() as u32);
-        self.handle_offset += MmioEndpoint::len() as u16;
+        self.handle_offset += MmioEndpoint::len();
         self.nodes.push(Box::new(ep));
     }
 
     pub fn add_virtio_pci_iommu(&mut self, iommu: VirtIoPciIommu) -> TranslationHandle {
         let old_offset = self.handle_offset;
         self.update_header(iommu.u8sum(), VirtIoPciIommu::len() as u32);
-        self.handle_offset += VirtIoPciIommu::len() as u16;
+        self.handle_offset += VirtIoPciIommu::len();
         self.nodes.push(Box::new(iommu));
-        TranslationHandle(old_offset)
+        // a handle is a 16-bit offset from the start of the table
+        TranslationHandle(u16::try_from(old_offset).expect("VIOT node offset must fit in 16 bits"))
     }
 
     pub fn add_virtio_mmio_iommu(&mut self, iommu: VirtIoMmioIommu) -> TranslationHandle {
         let old_offset = self.handle_offset;
         self.update_header(iommu.u8sum(), VirtIoMmioIommu::len() as u32);
-        self.handle_offset += VirtIoMmioIommu::len() as u16;
+        self.handle_offset += VirtIoMmioIommu::len();
         self.nodes.push(Box::new(iommu));
-        TranslationHandle(old_offset)
+        // a handle is a 16-bit offset from the start of the table
+        TranslationHandle(u16::try_from(old_offset).expect("VIOT node offset must fit in 16 bits"))
     }
 }
 
